@@ -167,6 +167,24 @@ def examine(files: List[List[Dict[str, Any]]], meta: Dict[str, Any], data, col: 
         if d:
             last = prefix[-1]["record_type"] if prefix else "empty"
             col.add("prefix_verdict", {"field": d[0], "last_record": last, "kind": meta["kind"]}, {"meta": meta, "cut": cut, "records": emission}, d[1], d[2])
+    # (a'): a tailing aggregator (one object, ingest a line, finalise, ingest the next ...) must give, after every line,
+    # the verdict a fresh aggregator gives for the same prefix (finalising is observational)
+    from semantiva.trace.aggregation.aggregator import TraceAggregator
+
+    tail = TraceAggregator()
+    for cut, rec in enumerate(emission, start=1):
+        tail.ingest(copy.deepcopy(rec))
+        got_tail = as_map(tail)
+        as_map(tail)
+        fresh = aggregate(emission[:cut])["first"]
+        col.labels["tailing_prefix"] += 1
+        if got_tail != fresh:
+            diff = sorted(k for k in set(got_tail) | set(fresh) if got_tail.get(k) != fresh.get(k))
+            g, b = got_tail.get(diff[0], {}), fresh.get(diff[0], {})
+            fields = sorted(f for f in set(g) | set(b) if g.get(f) != b.get(f))
+            col.add("tailing_aggregator_differs_from_fresh", {"entity": diff[0].split(":")[0], "fields": fields[:3], "kind": meta["kind"]},
+                    {"meta": meta, "cut": cut, "records": emission, "tailing": True}, {k: got_tail.get(k) for k in diff[:1]}, {k: fresh.get(k) for k in diff[:1]})
+            break
     # (b): order independence on permutations, interleavings and subsets
     idx = list(range(n))
     for variant in range(meta.get("orders", 12)):
@@ -279,7 +297,18 @@ def replay(case: Dict[str, Any]) -> List[Dict[str, Any]]:
             emission = [r for f in produce_launch(meta, tdir) for r in f]
         else:
             return []
-        if "cut" in case:
+        if case.get("tailing"):
+            from semantiva.trace.aggregation.aggregator import TraceAggregator
+
+            tail = TraceAggregator()
+            for cut, rec in enumerate(emission, start=1):
+                tail.ingest(copy.deepcopy(rec))
+                got_tail = as_map(tail)
+                fresh = aggregate(emission[:cut])["first"]
+                if got_tail != fresh:
+                    col.add("tailing_aggregator_differs_from_fresh", {"entity": "replayed"}, case, got_tail, fresh)
+                    break
+        elif "cut" in case:
             prefix = emission[: case["cut"]]
             res = aggregate(prefix)
             d = compare_to_reference(res["first"], reference_verdict(prefix))
